@@ -21,10 +21,11 @@ Definition key := (name * name)%type.
 Fixpoint name_eqb (a b : name) : bool :=
   match a, b with
   | [], [] => true
-  | x :: a', y :: b' => N.eqb x y && name_eqb a' b'
+  | x :: a', y :: b' => if N.eqb x y then name_eqb a' b' else false
   | _, _ => false
   end.
-Definition key_eqb (a b : key) : bool := name_eqb (fst a) (fst b) && name_eqb (snd a) (snd b).
+(* written with [if], not [&&]: under call-by-value evaluation [&&] would always compare both parts *)
+Definition key_eqb (a b : key) : bool := if name_eqb (fst a) (fst b) then name_eqb (snd a) (snd b) else false.
 
 (* ---- metricData and metricData.aggregate ---- *)
 Record mdata := MD { cnt : Z; tot : Z; exc : Z; mn : Z; mx : Z; ssq : Z }.
@@ -246,19 +247,4 @@ Fixpoint count_refused (t : table) (ord : list (key * mentry)) : Z :=
   match ord with
   | [] => 0
   | ke :: r => (if refuses t (fst ke) (snd ke) then 1 else 0) + count_refused (merge_metric t (fst ke) (snd ke)) r
-  end.
-
-(* number of distinct keys of a contribution list *)
-Fixpoint distinct_keys (cs : list contrib) : list key :=
-  match cs with
-  | [] => []
-  | c :: r => let d := distinct_keys r in if existsb (key_eqb (ckey c)) d then d else ckey c :: d
-  end.
-
-(* all tables created by a build have capacity at least m *)
-Fixpoint min_cap (m : Z) (b : build) : Prop :=
-  match b with
-  | BNew max => m <= max
-  | BAdds b _ | BTxn b _ _ | BRules b _ => min_cap m b
-  | BMerge b f | BMergeFailed b f => min_cap m b /\ min_cap m f
   end.
